@@ -52,4 +52,19 @@ def numericRhs [Add K] [Mul K] [OfNat K 0] (Arow x : List K) (b c : K) : K :=
 def jacobianExpr [Add K] [Mul K] [OfNat K 0] (Arow x : List K) (c : K) : K :=
   (List.zipWith (· * ·) Arow x).foldl (· + ·) c
 
+/-! ### the summands of a numeric update expression as `SystemOfShapes.reconstitute_expr` writes them (used by the
+regenerated loop, Generated/PyNumeric.lean) -/
+
+inductive NTerm (K : Type) where
+  | var (col : Nat)                 -- `x_col`            (the coefficient prints as "1", "1." or "1.0")
+  | scaled (col : Nat) (a : K)      -- `x_col * (A[row, col])`
+
+def evalNTerm [Mul K] (x : Nat → K) : NTerm K → K
+  | .var col => x col
+  | .scaled col a => x col * a
+
+/-- value of `" + ".join(terms) + " + (b) + (c)"` -/
+def evalNRow [Add K] [Mul K] [OfNat K 0] (x : Nat → K) (ts : List (NTerm K)) (b c : K) : K :=
+  sumList (ts.map (evalNTerm x)) + b + c
+
 end OdeVerif.Shapes
